@@ -4,9 +4,9 @@ CONFIG = dict(
     note="Trusted: Coq kernel; extraction (ExtrOcamlBasic only) and the OCaml/Rust glue; the hand-written model is tied to the code only by the correspondence check (differential testing, bounded by its generator). Theorems carry machine-range hypotheses (slice length < 2^64-3; build: 2*len+11 < 2^32). try_from (directory extraction from an image) is covered by the slicing theorems of C04/C05.",
     bin="c14", driver="c14_driver", extract=["C14"],
     quick_cases=4000, thorough_cases=400000, case_seconds=3,
-    correspondence="Model/Relocs.v {blocks, fold_pairs, build} vs pelite::base_relocs::{BaseRelocs::parse/iter_blocks/for_each/fold, build}",
+    correspondence="Model/Relocs.v {blocks, fold_pairs, build} and Model/Checked.v {reloc_parse_chk, fold_pairs_chk} vs pelite::base_relocs::{BaseRelocs::parse/iter_blocks/for_each/fold, build}",
     rule="60% relocation directories (structured blocks with SizeOfBlock drawn from {0,1,7,9,true,true+-1,true+2,true+4k,2^31,2^32-4..2^32-1,random}, "
-         "10% of them pure noise, optional truncation/trailing bytes, buffer placed at 0/4/8/12 mod 16), 40% build() inputs (ascending rvas stepping to page "
+         "10% of them pure noise, optional truncation/trailing bytes, buffer placed at 0/4/8/12 mod 16, one in six at 1/2/3/5/6/7/10/14/15 mod 16 where BaseRelocs::parse must answer Misaligned as the checked twin reloc_parse_chk of Model/Checked.v predicts), 40% build() inputs (ascending rvas stepping to page "
          "starts, to offset 0xFFF, near 2^32, duplicates, occasionally unsorted; types 1..15). A case is non-trivial when the directory has at least one "
          "block / the rva list is non-empty; distinct = distinct case text.",
     trusted_base=["Spec/RelocSpec.v as the reading of the property text"],
